@@ -527,6 +527,40 @@ def check(prog, rep):
                     if later:
                         break
                     between += risky
+    # a fault recorded in the cache: a store into a Problem cache from inside an exception handler.  What the failed
+    # attempt learnt ("no Hessian", "not linear") is then what the next solve starts from, unlike a solve that never failed.
+    LOOKUP_EXC = {"KeyError", "LookupError", "AttributeError", "IndexError", "NameError"}
+    for fi in prog.functions.values():
+        recv = problem_receivers(fi)
+        if not recv:
+            continue
+        asg = local_assignments(fi.node)
+        for a in sorted(pm.cache_attrs):
+            alias = {nm for nm, vals in asg.items() for v in vals if isinstance(v, ast.Attribute) and dotted(v.value) in recv and v.attr == a}
+
+            def into_cache(t):
+                if isinstance(t, ast.Subscript):
+                    b = t.value
+                    return (isinstance(b, ast.Name) and b.id in alias) or (isinstance(b, ast.Attribute) and dotted(b.value) in recv and b.attr == a)
+                return isinstance(t, ast.Attribute) and dotted(t.value) in recv and t.attr == a
+
+            for tr in walk_local(fi.node, include_self=False):
+                if not isinstance(tr, ast.Try):
+                    continue
+                works = [y for st in tr.body for y in ast.walk(st) if isinstance(y, ast.Call) and (dotted(y.func) or "") not in ("len", "isinstance", "id", "type")]
+                if not works:
+                    continue
+                for h in tr.handlers:
+                    kinds = {src(k).split(".")[-1] for k in (h.type.elts if isinstance(h.type, ast.Tuple) else [h.type])} if h.type is not None else {"<bare>"}
+                    if kinds <= LOOKUP_EXC:
+                        continue        # the look-up idiom: try: v = cache[k]  except KeyError: v = cache[k] = build()
+                    for st in h.body:
+                        for y in ast.walk(st):
+                            if isinstance(y, ast.Assign) and any(into_cache(t) for t in y.targets):
+                                rep.ob("R20.4", f"{fi.qual.split(':')[1]}:Problem.{a}", False,
+                                       f"`{src(y)[:50]}` (line {y.lineno}) writes into Problem.{a} from the handler of `except {', '.join(sorted(kinds))}` around `{src(works[0])[:40]}`: a failure of that call -- transient or not -- is "
+                                       f"recorded in the cache, so the next solve of the same problem starts from what the failed attempt left and differs from a solve that never failed",
+                                       loc=f"{fi.module.rel}:{y.lineno}", detail="fault-recorded-in-cache", robust=True)
     from .common import cache_inplace_mutations
     muts = cache_inplace_mutations(prog, pm)
     for f, n, what in muts:
